@@ -144,6 +144,20 @@ def crash_suite(name, quick, thorough):
     }
 
 
+def probe_suite(name, quick, thorough, length=40):
+    return {
+        "name": name, "cmd": ["repo", "--impl", "inmem", "--mode", "c02", "--probe", "--len", str(length)],
+        "header": "From GK Require Import HeapCheck.\nOpen Scope string_scope.\nOpen Scope list_scope.\nOpen Scope Z_scope.",
+        "hist_type": "phist",
+        "eval": "Definition M := Eval vm_compute in probe_mismatches cases 0.\nPrint M.\n"
+                "Definition V : list (nat * nat) := [].\nPrint V.",
+        "diag": "Eval vm_compute in probe_expect (nth {k} cases []) {i}.",
+        "show": "Eval vm_compute in map (fun x => fst (fst x)) (nth {k} cases []).",
+        "sig": "false",
+        "quick": quick, "thorough": thorough,
+    }
+
+
 SUITES = {
     "C01": {"suites": [
         repo_suite("c01-inmem", "inmem", "c01", "p_C01", {"n": 25, "shards": 8}, {"n": 200, "shards": 16, }),
@@ -152,6 +166,7 @@ SUITES = {
     "C02": {"suites": [
         repo_suite("c02-inmem", "inmem", "c02", "p_C02", {"n": 25, "shards": 8}, {"n": 200, "shards": 16}),
         repo_suite("c02-ent", "ent", "c02", "p_C02", {"n": 15, "shards": 6}, {"n": 120, "shards": 16}),
+        probe_suite("c02-heap-probe", {"n": 12, "shards": 8}, {"n": 100, "shards": 16}),
     ]},
     "C10": {"suites": [
         lin_suite("c10-inmem", "inmem", {"n": 60, "shards": 8}, {"n": 600, "shards": 16}),
